@@ -70,6 +70,24 @@ impl Backend for Typescript {
             let (pdus, warnings): (String, Vec<CompilerError>) =
                 tlds.into_iter()
                     .fold((String::new(), vec![]), |mut acc, tld| {
+                        #[cfg(rasn_verif)]
+                        let _verif_name = tld.name().clone();
+                        #[cfg(rasn_verif)]
+                        let tld = {
+                            let result = self.generate(tld.clone());
+                            crate::verif::emit("gen", || {
+                                format!(
+                                    "\"name\":{},\"outcome\":\"{}\"",
+                                    crate::verif::s(&_verif_name),
+                                    match &result {
+                                        Ok(s) if s.is_empty() => "empty",
+                                        Ok(_) => "item",
+                                        Err(_) => "warning",
+                                    }
+                                )
+                            });
+                            tld
+                        };
                         match self.generate(tld) {
                             Ok(s) => {
                                 acc.0.push('\n');
